@@ -256,6 +256,7 @@ def _real_bindings(sig, calls):
     module = script._module_node
     stmts = {st.start_pos[0]: st for st in module.children}
     out = []
+    fv = None
     for ci, call in enumerate(calls):
         try:
             expr = stmts[first + ci].children[0]
@@ -270,9 +271,11 @@ def _real_bindings(sig, calls):
                     arg_ids[el.start_pos] = i
                     if el.type == 'argument':
                         arg_ids[el.children[2].start_pos] = i
-            fvs = list(context.infer_node(name))
-            assert len(fvs) == 1, fvs
-            fv = fvs[0]
+            if fv is None:
+                # inferred once per module: jedi answers NO_VALUES after 300 inferences of one name
+                fvs = list(context.infer_node(name))
+                assert len(fvs) == 1, fvs
+                fv = fvs[0]
             args = J.TreeArguments(script._inference_state, context, node, trailer)
             res, issues = get_executed_param_names_and_issues(fv, args)
 
